@@ -29,8 +29,9 @@ type fakeScript struct {
 }
 
 type fakeProc struct {
-	x      *gate.Exec
-	script fakeScript
+	x         *gate.Exec
+	script    fakeScript
+	anonymous bool // thread labels do not mention test names (map-order independence)
 
 	mu          sync.Mutex // real mutex, never held across a gate or a blocking operation
 	inbuf       []byte
@@ -302,18 +303,23 @@ func (s *fakeStdin) Write(p []byte) (int, error) {
 	fp.mu.Unlock()
 	for i, req := range reqs {
 		req := req
-		fp.x.Go(fmt.Sprintf("answer#%d:%s", nth-len(reqs)+i, req.TestName), func() {
+		label := fmt.Sprintf("answer#%d:%s", nth-len(reqs)+i, req.TestName)
+		if fp.anonymous {
+			label = fmt.Sprintf("answer#%d", nth-len(reqs)+i)
+		}
+		fp.x.Go(label, func() {
 			gate.PointIf("client.answer", func() bool {
 				fp.mu.Lock()
 				defer fp.mu.Unlock()
 				return !fp.stalled || fp.exited
 			})
 			fp.mu.Lock()
-			defer fp.mu.Unlock()
-			fp.outstanding--
 			if fp.exited || fp.stalled {
+				fp.outstanding--
+				fp.mu.Unlock()
 				return
 			}
+			fp.mu.Unlock()
 			var resp *conformancev1.ClientCompatResponse
 			if fp.script.Answer != nil {
 				resp = fp.script.Answer(req)
@@ -321,7 +327,15 @@ func (s *fakeStdin) Write(p []byte) (int, error) {
 				resp = &conformancev1.ClientCompatResponse{TestName: req.TestName}
 			}
 			if resp == nil {
-				return // scripted: never answered
+				// scripted: never answered; the request stays outstanding, so
+				// the client does not exit on its own
+				return
+			}
+			fp.mu.Lock()
+			defer fp.mu.Unlock()
+			fp.outstanding--
+			if fp.exited {
+				return
 			}
 			b := frame(resp)
 			fp.lastAnswer = b
